@@ -6,44 +6,58 @@ of a memory dump that the oracles use (independent of the model's `mmu`). -/
 namespace Firefly.Replay.Vmm
 open Firefly.Util Firefly.Vmm
 
-/-! ## compacted memory: one array per touched frame, sorted by frame number -/
-abbrev Tabs := List (Nat × Array W)
+/-! ## compacted memory: one array per touched frame, sorted by frame number; the dump text of a
+frame is cached until the frame is written again -/
+structure Tab where
+  f : Nat
+  a : Array W
+  frag : Option String := none
+
+abbrev Tabs := List Tab
 
 def zeroTab : Array W := Array.replicate 512 0
 
 def Tabs.modify (t : Tabs) (f : Nat) (fn : Array W → Array W) : Tabs :=
   match t with
-  | [] => [(f, fn zeroTab)]
-  | (f', a) :: r =>
-    if f' = f then (f', fn a) :: r
-    else if f < f' then (f, fn zeroTab) :: (f', a) :: r
-    else (f', a) :: Tabs.modify r f fn
+  | [] => [{ f := f, a := fn zeroTab }]
+  | x :: r =>
+    if x.f = f then { f := f, a := fn x.a } :: r
+    else if f < x.f then { f := f, a := fn zeroTab } :: x :: r
+    else x :: Tabs.modify r f fn
 
 def applyCell (t : Tabs) : Cell → Tabs
   | .word f i v => Tabs.modify t f (fun a => a.setIfInBounds i v)
   | .frame f g => Tabs.modify t f (fun _ => Array.ofFn (n := 512) fun i => g i.val)
 
-def tabsToLog (t : Tabs) : List Cell := t.map fun (f, a) => .frame f (fun i => a.getD i 0)
+def tabsToLog (t : Tabs) : List Cell := t.map fun x => .frame x.f (fun i => x.a.getD i 0)
 
 def hashTab (a : Array W) : W :=
   a.foldl (fun h x => (h ^^^ x) * 1099511628211#64) 14695981039346656037#64
 
-def dumpTabs (t : Tabs) : String := Id.run do
-  let mut nf := 0
-  let mut s := ""
-  for (f, a) in t do
-    let k := a.foldl (fun k x => if x != 0 then k + 1 else k) 0
-    if k = 0 then continue
-    nf := nf + 1
-    if k > 300 then
-      s := s ++ s!" {f} 999 {k} {(hashTab a).toNat}"
-    else
-      s := s ++ s!" {f} {k}"
-      let mut i := 0
-      for x in a do
-        if x != 0 then s := s ++ s!" {i} {x.toNat}"
-        i := i + 1
-  return s!"{nf}{s}"
+/-- dump text of one frame ("" when it is all zero) -/
+def fragOf (f : Nat) (a : Array W) : String := Id.run do
+  let k := a.foldl (fun k x => if x != 0 then k + 1 else k) 0
+  if k = 0 then return ""
+  if k > 300 then return s!" {f} 999 {k} {(hashTab a).toNat}"
+  let mut s := s!" {f} {k}"
+  let mut i := 0
+  for x in a do
+    if x != 0 then s := s ++ s!" {i} {x.toNat}"
+    i := i + 1
+  return s
+
+def Tabs.refresh (t : Tabs) : Tabs :=
+  t.map fun x => match x.frag with
+    | some _ => x
+    | none => { x with frag := some (fragOf x.f x.a) }
+
+def dumpTabs (t : Tabs) : String :=
+  let frags := t.filterMap fun x =>
+    let s := match x.frag with
+      | some s => s
+      | none => fragOf x.f x.a
+    if s = "" then none else some s
+  s!"{frags.length}{String.join frags}"
 
 structure RSt where
   st : St := { mem := { base := 0, n := 0, log := [] }, cr3 := 0 }
@@ -56,7 +70,7 @@ structure RSt where
 def RSt.compact (r : RSt) : RSt :=
   let log := r.st.mem.log
   let newCells := log.take (log.length - r.tabs.length)
-  let tabs := newCells.reverse.foldl applyCell r.tabs
+  let tabs := (newCells.reverse.foldl applyCell r.tabs).refresh
   { r with tabs := tabs, st := { r.st with mem := { r.st.mem with log := tabsToLog tabs } } }
 
 def stateStr (r : RSt) : String × RSt :=
